@@ -11,6 +11,7 @@
 (*   ProofLength       |proof| = 272 + 32 U determines U uniquely, and the   *)
 (*                     strict decoder's length rule accepts exactly these    *)
 (*   UpdateGuards      idx < n < MaxU implies no addition overflows          *)
+(*   GeneratorLoop     the inclusive generator loop forms no value > MaxU    *)
 (*   NaturalM          the guard U + R1 + R2 >= L + 1 makes                  *)
 (*                     M = U + R1 + R2 - 1 - L a natural number and          *)
 (*                     L + 1 + M + 1 generators are at most input size + 2   *)
@@ -66,5 +67,9 @@ UpdateGuards == (idx < n /\ n < MaxU) => (idx + 1 <= MaxU /\ n + 1 <= MaxU /\ id
 
 NaturalM == (Tot >= L + 1) => (M >= 0 /\ (L + 1) + (M + 1) = Tot + 1)
 
-Lemmas == IndexTranslation /\ ProofLength /\ UpdateGuards /\ NaturalM
+\* the generator loop runs over the inclusive range 1 .. count with count = n + 1: every value it forms stays
+\* within the machine range (the exclusive bound count + 1 of the pinned code did not for n = MaxU - 1: F14)
+GeneratorLoop == (n < MaxU /\ i >= 1 /\ i <= n + 1) => i <= MaxU
+
+Lemmas == IndexTranslation /\ ProofLength /\ UpdateGuards /\ NaturalM /\ GeneratorLoop
 =============================================================================
